@@ -431,18 +431,55 @@ var rR17 = RuleRef{Name: "R17", Doc: "guarded shared state: every access to Chan
 	}
 	lf := la.flow(check)
 	nDel := 0
+	// helpers that read a deadline: they fetch ttlKeys.Get(param i) and look at TTLInfo.value
+	deadlineReader := func(fn *ssa.Function) int {
+		if fn == nil || fn.Blocks == nil || pkgRel(fn) != "memdb" {
+			return -1
+		}
+		pi, reads := -1, false
+		for _, b := range fn.Blocks {
+			for _, in := range b.Instrs {
+				if call, ok := in.(*ssa.Call); ok {
+					if ga := c.keyspaceAccess(call); ga != nil && ga.Map == "ttlKeys" && ga.Method == "Get" {
+						pi = paramIndex(fn, canon(ga.Key))
+					}
+				}
+				if fa, ok := in.(*ssa.FieldAddr); ok && fieldName(fa) == "value" && namedOf(fa.X.Type()) == "TTLInfo" {
+					reads = true
+				}
+			}
+		}
+		if !reads {
+			return -1
+		}
+		return pi
+	}
+	removerCall := func(ci *ssa.Call) (string, bool) {
+		if cf := callee(ci); cf != nil && cf != check {
+			for _, pi := range c.ttlRemoverParams(cf) {
+				if pi < len(ci.Call.Args) {
+					return cf.Name(), true
+				}
+			}
+		}
+		return "", false
+	}
 	for _, b := range check.Blocks {
 		for _, in := range b.Instrs {
 			ci, ok := in.(*ssa.Call)
 			if !ok {
 				continue
 			}
-			a := c.keyspaceAccess(ci)
-			if a == nil || !a.Write {
+			what := ""
+			if a := c.keyspaceAccess(ci); a != nil && a.Write {
+				what = a.Map + "." + a.Method
+			} else if n, ok := removerCall(ci); ok {
+				what = "deadline removal through " + n
+			}
+			if what == "" {
 				continue
 			}
 			nDel++
-			// find a dominating branch whose condition reads TTLInfo.value from an entry fetched under the lock
 			okDecision := false
 			for d := b; d != nil && !okDecision; d = d.Idom() {
 				id := d.Idom()
@@ -454,32 +491,52 @@ var rR17 = RuleRef{Name: "R17", Doc: "guarded shared state: every access to Chan
 					continue
 				}
 				readsValue, lockedGet := false, false
-				backslice(iff.Cond, func(v ssa.Value) bool {
-					if fa, ok := v.(*ssa.FieldAddr); ok && fieldName(fa) == "value" && namedOf(fa.X.Type()) == "TTLInfo" {
-						readsValue = true
-					}
-					if call, ok := v.(*ssa.Call); ok {
-						if ga := c.keyspaceAccess(call); ga != nil && ga.Map == "ttlKeys" && ga.Method == "Get" {
-							held, _ := lf.Held(call)
-							for _, h := range held {
-								if covers(h, canon(ga.Key)) {
-									lockedGet = true
-								}
+				conds := []ssa.Value{iff.Cond}
+				// a short-circuit condition: look at the comparisons feeding the boolean phi as well
+				if phi, ok := iff.Cond.(*ssa.Phi); ok {
+					conds = append(conds, phi.Edges...)
+					for _, p := range phi.Block().Preds {
+						if len(p.Instrs) > 0 {
+							if pif, ok := p.Instrs[len(p.Instrs)-1].(*ssa.If); ok {
+								conds = append(conds, pif.Cond)
 							}
 						}
-						return false
 					}
-					return true
-				})
+				}
+				for _, cond := range conds {
+					backslice(cond, func(v ssa.Value) bool {
+						if fa, ok := v.(*ssa.FieldAddr); ok && fieldName(fa) == "value" && namedOf(fa.X.Type()) == "TTLInfo" {
+							readsValue = true
+						}
+						if call, ok := v.(*ssa.Call); ok {
+							held, _ := lf.Held(call)
+							if ga := c.keyspaceAccess(call); ga != nil && ga.Map == "ttlKeys" && ga.Method == "Get" {
+								for _, h := range held {
+									if covers(h, canon(ga.Key)) {
+										lockedGet = true
+									}
+								}
+							} else if pi := deadlineReader(callee(call)); pi >= 0 && pi < len(call.Call.Args) {
+								for _, h := range held {
+									if covers(h, canon(call.Call.Args[pi])) {
+										lockedGet, readsValue = true, true
+									}
+								}
+							}
+							return false
+						}
+						return true
+					})
+				}
 				if readsValue && lockedGet {
 					okDecision = true
 				}
 			}
-			c.Add("R17", fnName(check), fmt.Sprintf("%s.%s decided on a deadline read under the key's stripe", a.Map, a.Method), ci.Pos(), okDecision, "the removal must be control-dependent on a comparison of TTLInfo.value taken from a ttlKeys.Get made while the stripe is held (double-checked expiry)")
+			c.Add("R17", fnName(check), fmt.Sprintf("%s decided on a deadline read under the key's stripe", what), ci.Pos(), okDecision, "the removal must be control-dependent on a comparison of TTLInfo.value taken from a ttlKeys.Get made while the stripe is held (double-checked expiry)")
 		}
 	}
 	c.Count("R17_expiry_removals", nDel)
-	c.Min("R17_expiry_removals", 2)
+	c.Min("R17_expiry_removals", 1)
 }}
 
 // R23u: proposal identifiers are globally unique.
